@@ -40,8 +40,24 @@ def sp_cname(eng, st, b):
     return VStr(_cname(b.t), b=True)
 
 
+_nname = z3.Function('normal_name', S, S)
+
+
+@specfn('normal_name')
+def sp_nname(eng, st, e):
+    """CPython's get_normal_name: utf-8 / latin-1 spellings with an optional end-of-line suffix -> the codec's name"""
+    return VStr(_nname(e.t))
+
+
+# _get_normal_name (added by the fix that aligned the declared name with CPython's get_normal_name): str.lower / replace
+# are outside the subset -- ASSUMED to compute the uninterpreted normal_name; compared with tokenize.detect_encoding on every
+# codec alias of the registry by the bounded part of the check
+contract('parso.utils._get_normal_name', params={'orig_enc': 'str'}, returns='str', trusted=True, modifies=[], lists=[],
+         ensures=['result == normal_name(orig_enc)'],
+         note='ASSUMED: a pure function of the declared name (CPython get_normal_name); validated bounded against tokenize.detect_encoding '
+              'on every alias of the codec registry with spelling variants and end-of-line suffixes')
 BOM8 = 'source.startswith(b"\\xef\\xbb\\xbf")'
-ENC = ('ite(%s, "utf-8", ite(has_cookie(source), decode(cookie_name(source), "ascii", "replace"), encoding))' % BOM8)
+ENC = ('ite(%s, "utf-8", ite(has_cookie(source), normal_name(decode(cookie_name(source), "ascii", "replace")), encoding))' % BOM8)
 COOKIE_FACT = {'<literal>': ['matched == has_cookie(s)', 'implies(matched, g1 == cookie_name(s))']}
 contract('parso.utils.python_bytes_to_unicode.detect_encoding', closure_of='parso.utils.python_bytes_to_unicode',
          params={}, free={'source': 'bytes', 'encoding': 'str'}, returns='str',
